@@ -204,6 +204,12 @@ func genUniverse(c *simrt.Choices, g genCfg) *Universe {
 		}
 		if chance(c, 1, 5, "proj-first") {
 			s.Proj = "first"
+		} else if g.Features["mirror"] && chance(c, 1, 4, "proj-mirror") {
+			// cp-like command: two (or three) file outputs that mirror the inputs
+			s.Proj = "mirror"
+			s.Inputs = []string{"*.txt"}
+			s.Excludes = nil
+			s.Outs = []OutSpec{{Kind: "file", Path: "out/" + s.Name + ".m0.out"}, {Kind: "file", Path: "out/" + s.Name + ".m1.out"}}
 		}
 		s.DurMS = []int{0, 0, 1, 5, 5}[c.Choose(5, "dur")]
 		if g.Features["checks"] && chance(c, 1, 6, "check") {
@@ -284,6 +290,9 @@ func genEdit(c *simrt.Choices, u *Universe, g genCfg, snapshots []*Universe) (*U
 	labels := u.Labels()
 	files := sortedKeys(u.Files)
 	kinds := []string{"modify", "append", "truncate", "move-bytes", "add-file", "remove-file", "rename-file", "command", "toggle-exclude"}
+	if g.Features["mirror"] {
+		kinds = append(kinds, "swap-files", "swap-files")
+	}
 	if g.Features["edit-outs"] {
 		kinds = append(kinds, "rename-output", "add-output", "file-to-dir")
 	}
@@ -342,6 +351,19 @@ func genEdit(c *simrt.Choices, u *Universe, g genCfg, snapshots []*Universe) (*U
 			ed.Target, ed.Detail = f, "-> "+g2
 		} else {
 			n.Files[f] += "~"
+			ed.Op, ed.Target = "append", f
+		}
+	case "swap-files":
+		// two adjacent files of one directory swap their contents (the multiset of contents,
+		// and their concatenation order aside, everything a content-only digest sees is unchanged)
+		i := c.Choose(len(files), "file")
+		f := files[i]
+		if i+1 < len(files) && path.Dir(files[i+1]) == path.Dir(f) {
+			g2 := files[i+1]
+			n.Files[f], n.Files[g2] = n.Files[g2], n.Files[f]
+			ed.Target, ed.Detail = f, "<-> "+g2
+		} else {
+			n.Files[f] += "%"
 			ed.Op, ed.Target = "append", f
 		}
 	case "add-file":
